@@ -194,7 +194,11 @@ def gen_identity_history(rng, big):
         if len(meta) >= MAXLIVE - 2:
             break
         i = int(rng.integers(0, len(meta)))
-        add(gen_identity_op(rng, *meta[i]), i)
+        idop = gen_identity_op(rng, *meta[i])
+        twice = [list(o) for o in idop] if (rng.random() < 0.3 and len(meta) + 2 * len(idop) <= MAXLIVE) else None
+        add(idop, i)
+        if twice is not None:
+            add(twice, i)       # the same identity call again: a memoised result would come back
         # the edit that exposes a result that is not independent: in place, on the result or on the original
         for _ in range(int(rng.integers(1, 3))):
             j = int(rng.choice([i, len(meta) - 1, int(rng.integers(0, len(meta)))]))
@@ -594,6 +598,59 @@ def compare_conv(ans, st):
             scale = max(1.0, float(np.max(np.abs(real))))
             if abs(r[0] - float(m[0])) > G.TOL * scale or abs(r[1] - float(m[1])) > G.TOL * scale:
                 return 'point %d: (%r, %r) vs r*(cos, sin) = (%r, %r)' % (k, float(r[0]), float(r[1]), float(m[0]), float(m[1])), (exact, skipped)
+    return None, (exact, skipped)
+
+
+def pshift_queries(st):
+    """The executed composite of `PolarGrid.shift(ed)` (Model/Grid.lean `pshiftedPts` / `pshiftPts`) on the source grid's
+    current value: the shifted Cartesian points, and for the in-place form also the polar points `[r, cos, sin]`."""
+    op = st['op']
+    src = st['before'][op[1]]
+    if src['sys'] != 'p' or src['points'].shape[1] != 2:
+        return []
+    th = src['points'][:, 1]
+    args = '%d %s %s %s' % (op[1], rat_list([float(v) for v in np.cos(th)]), rat_list([float(v) for v in np.sin(th)]),
+                            rat_list([float(v) for v in op[2][1]]))
+    return ['C11 pshifted ' + args] + (['C11 pshift ' + args] if op[0] == 'pshift' else [])
+
+
+def compare_pshift(answers, st):
+    """None or the first difference between the composed model and what PolarGrid.shift(ed) returned; (exact, skipped)."""
+    op = st['op']
+    new = st['after'][-1] if op[0] == 'pshifted' else st['after'][op[1]]
+    real = new['points']
+    cart = real if new['sys'] == 'c' else (polar_to_cart(real) if len(real) else real)
+    if not answers[0].startswith('ok'):
+        return 'model answered %r' % answers[0], (0, 0)
+    body = answers[0].split(' ', 1)[1] if ' ' in answers[0] else '-'
+    mp = parse_rat_lists(body)
+    if len(mp) != len(cart):
+        return 'number of points %d vs %d' % (len(mp), len(cart)), (0, 0)
+    if len(mp):
+        M = np.array([[float(x) for x in q] for q in mp], dtype=float).reshape(len(mp), 2)
+        if not close_arr(cart, M):
+            k = int(np.argmax(np.max(np.abs(cart - M), axis=1)))
+            return 'shifted Cartesian point %d: %r vs model %r' % (k, cart[k].tolist(), M[k].tolist()), (0, 0)
+    exact = skipped = 0
+    if len(answers) > 1:
+        if not answers[1].startswith('ok'):
+            return 'model answered %r' % answers[1], (0, 0)
+        body = answers[1].split(' ', 1)[1] if ' ' in answers[1] else '-'
+        pp = parse_rat_lists(body)
+        if len(pp) != len(real):
+            return 'number of polar points %d vs %d' % (len(pp), len(real)), (0, 0)
+        for k, (m, r) in enumerate(zip(pp, real)):
+            if len(m) == 0:
+                skipped += 1
+                continue
+            exact += 1
+            rr, c, s_ = [float(x) for x in m]
+            if abs(r[0] - rr) > G.TOL * max(1.0, rr):
+                return 'polar point %d: radius %r vs %r' % (k, float(r[0]), rr), (exact, skipped)
+            if rr > 0:
+                d = (float(r[1]) - math.atan2(s_, c) + math.pi) % (2 * math.pi) - math.pi
+                if abs(d) > 1e-7:
+                    return 'polar point %d: angle %r vs direction (%r, %r)' % (k, float(r[1]), c, s_), (exact, skipped)
     return None, (exact, skipped)
 
 
@@ -1045,6 +1102,10 @@ DIRECTED = [
                                   ['pshift', 0, V10], ['as', 0], ['reversed', 0], ['as', 6]]},
     {'family': 'history', 'ops': [['new', S('c', 'uns', [[1.0, 0.0, -2.0], [0.0, 3.0, 1.0]], [1.0, 2.0, 3.0])], ['as', 0], ['as', 1], ['reverse', 1], ['as', 1], ['copy', 1], ['as', 4],
                                   ['scale', 0, ['s', 2.0, '0d']], ['as', 0]]},
+    # polar shift on points whose shifted image has a rational radius (the composed exact model is defined there)
+    {'family': 'history', 'ops': [['new', S('p', 'sep', [[3.0, 6.0, 0.0], [0.0]])], ['pshifted', 0, ['v', [0.0, 4.0], 'float64']], ['pshift', 0, ['v', [0.0, 4.0], 'float64']],
+                                  ['pshift', 0, ['v', [0.0, 0.0], 'float64']]]},
+    {'family': 'history', 'ops': [['new', S('p', 'uns', [[5.0, 1.0, 2.5], [0.0, 0.0, 0.0]])], ['pshift', 0, ['v', [-2.0, 4.0], 'list']], ['pshifted', 0, ['v', [0.0, 0.0], 'tuple']]]},
     # dtype / container of every argument
     {'family': 'history', 'ops': [['new', dict(S('c', 'reg', [[0.5, 0.5], [3, 2], [1.0, 1.0]]), forms={'dims': 'uint8', 'coord': '0d', 'outer': 'list'})],
                                   ['scaled', 0, ['s', 2.0, '0d']], ['scaled', 0, ['s', 2.0, 'len1']], ['scale', 0, ['s', 2.0, 'list1']], ['shift', 0, ['s', 1.0, '0d']],
@@ -1162,12 +1223,18 @@ def run(ctx):
                     b = [op[2][1]] * nd if op[2][0] == 's' else op[2][1]
                     ml = 'C11 %s %d %s' % (op[0], op[1], rat_list(b))
                 conv = None
+                psh = None
                 if ml == 'IMPL':
                     if op[0] == 'as' and st['status'] == 'ok':
                         cq = conv_query(st)
                         if cq is not None:
                             conv = len(lines)
                             lines.append(cq)
+                    if op[0] in ('pshifted', 'pshift') and st['status'] == 'ok':
+                        pq = pshift_queries(st)
+                        if pq:
+                            psh = (len(lines), len(pq))
+                            lines += pq
                     ml = impl_line(st)
                 img = None
                 if op[0] in IMAGE_OF and st['status'] == 'ok' and isinstance(ml, str):
@@ -1179,7 +1246,7 @@ def run(ctx):
                     lines += ml
                 else:
                     lines.append(ml)
-                m = {'op': len(lines) - 1, 'impl': op[0] in FROM_IMPL, 'conv': conv, 'img': img}
+                m = {'op': len(lines) - 1, 'impl': op[0] in FROM_IMPL, 'conv': conv, 'img': img, 'psh': psh}
                 nlive = len(st['after'])
                 m['show'] = len(lines)
                 lines += ['C11 show %d' % k for k in range(nlive)]
@@ -1253,6 +1320,16 @@ def run(ctx):
                     ctx.traces_validated += 1
                     if d is not None:
                         dis(ctx, 'C11 as_ model', {'case': case, 'op': st['op'], 'diff': d, 'model': out[base_i + m['conv']][:300]})
+                        break
+                if m.get('psh') is not None:
+                    at, cnt = m['psh']
+                    d, (nex, nskip) = compare_pshift(out[base_i + at: base_i + at + cnt], st)
+                    ctx.count('pshift-model:' + st['op'][0])
+                    ctx.count('pshift-model:polar-points-compared', nex)
+                    ctx.count('pshift-model:polar-points-irrational-radius', nskip)
+                    ctx.traces_validated += 1
+                    if d is not None:
+                        dis(ctx, 'C11 pshift model', {'case': case, 'op': st['op'], 'diff': d})
                         break
                 if m.get('img') is not None:
                     op = st['op']
